@@ -333,6 +333,9 @@ func checkC03(p *Prog, r *Report) {
 	// ---- R3.8 answers of an earlier session select nothing ------------------------------------------------
 	r.Rule("R3.8", "The table of outstanding transactions is emptied on every path of the Restart task and of the Failed transition (shared with C01 R1.11): a late success response to a nomination sent before the restart finds no transaction, so it cannot mark a pair of the new session Succeeded and select it.", 2)
 	checkPendingWipe(p, r)
+	// ---- R3.10 the priorities compared are the RFC pair priorities ----------------------------------------------------
+	r.Rule("R3.10", "The priority guard on re-selection compares CandidatePair.priority values, which are the RFC 8445 pair priority computed in 64 bits from the two candidate priorities (rule of C17 R17.4): a low word computed in 32 bits wraps for candidate priorities of 2^31 and above — which a peer may signal — and inverts the order the guard relies on.", 6)
+	checkPairPriorityFormula(p, r)
 	// ---- R3.9 a lite agent keeps its lite selector ------------------------------------------------------------
 	r.Rule("R3.9", "The agent's selector is installed only by setSelector, whose table wraps the role's selector in the lite selector whenever the agent is lite (shared with C05 R5.4): a lite agent that switches role after a conflict still never originates Binding requests.", 2)
 	checkSetSelectorTable(p, r)
